@@ -32,6 +32,8 @@ pub enum Op15 {
     IndexHint,
     DistinctOn,
     ExprWindowName,
+    /// a UNION member that carries an ORDER BY / LIMIT of its own (clearing the outer ORDER BY must not reach into it)
+    UnionOrderedMember,
 }
 
 fn class15(op: &Op15) -> &'static str {
@@ -42,6 +44,7 @@ fn class15(op: &Op15) -> &'static str {
         Op15::IndexHint => "index_hint",
         Op15::DistinctOn => "distinct_on",
         Op15::ExprWindowName => "item-window-name",
+        Op15::UnionOrderedMember => "union-ordered-member",
     }
 }
 
@@ -62,6 +65,9 @@ fn apply15(s: &mut SelectStatement, op: &Op15) {
         }
         Op15::ExprWindowName => {
             s.expr_window_name_as(Expr::col(a("b")), a("w"), a("wn"));
+        }
+        Op15::UnionOrderedMember => {
+            s.union(UnionType::All, Query::select().column(a("b")).from(a("t1")).order_by(a("id"), Order::Desc).limit(3).offset(1).to_owned());
         }
     }
 }
@@ -586,7 +592,7 @@ fn model(thorough: bool) -> Sel15 {
             *n <= 2 || seen.insert(c)
         });
     }
-    menu.extend([Op15::NamedWindow, Op15::TableSample, Op15::IndexHint, Op15::DistinctOn, Op15::ExprWindowName]);
+    menu.extend([Op15::NamedWindow, Op15::TableSample, Op15::IndexHint, Op15::DistinctOn, Op15::ExprWindowName, Op15::UnionOrderedMember]);
     Sel15 { menu, probes: &PROBES }
 }
 
